@@ -42,7 +42,7 @@ impl CodeGenerator {
         instructions: &InstructionCache,
         max_points: usize,
     ) -> Option<Item> {
-        if max_points > 0 {
+        if max_points > 1 {
             let mut rng = rand::thread_rng();
             #[cfg(feature = "verif")]
             let mut rng = crate::push::verif::rng(rng);
